@@ -565,6 +565,21 @@ impl PayToken {
     }
 }
 
+#[cfg(feature = "verif-hooks")]
+pub(crate) fn verif_apply(
+    customer_balance: CustomerBalance,
+    merchant_balance: MerchantBalance,
+    amount: PaymentAmount,
+) -> (
+    Result<CustomerBalance, Error>,
+    Result<MerchantBalance, Error>,
+) {
+    (
+        customer_balance.apply(amount),
+        merchant_balance.apply(amount),
+    )
+}
+
 #[cfg(test)]
 mod test {
     use super::*;
